@@ -103,7 +103,9 @@ impl SimReader {
         // a file can be included many times over (replayed lines), each time re-meeting its own
         // directives: allow every occurrence once per occurrence
         let occ = world.include_occurrences();
-        let budget = 64 + 8 * occ + occ * occ;
+        // ... but never fewer than the analyzer's own limit on included files (1 000:
+        // files that include each other several times over are followed up to that many times)
+        let budget = (64 + 8 * occ + occ * occ).max(1000 + 64);
         SimReader {
             world: world.clone(),
             personality,
